@@ -285,7 +285,8 @@ pub fn program_from_raw(us: &[u16], src: u16, muts: &[(u16, u16, u16)], nm: u16)
                 if pick(src, 4) == 0 {
                     random_program(us)
                 } else {
-                    let l = 1 + pick(us[1], if us[2] % 4 == 0 { 10 } else { 3 });
+                    // (1 of 512 source programs is large: 60..139 model parameters; every prefix of a program is built, so these are expensive)
+                    let l = if us[2] % 512 == 7 { 60 + pick(us[1], 80) } else { 1 + pick(us[1], if us[2] % 4 == 0 { 10 } else { 3 }) };
                     let mut p = valid_program(us, l, 1 + pick(us[3], 3), 1 + pick(us[4], 10), 1 + pick(us[5], 3));
                     let n_mut = pick(nm, 4);
                     for (sel, a, b) in muts.iter().take(n_mut) {
